@@ -90,6 +90,12 @@ def declare(w):
 
     w.add(os_write("RawOut", "model:RawOut.write"))
     w.add(os_write("Sock", "model:Sock.sendall"))
+    # socket.send(): may transmit only a PREFIX of the data and returns how many bytes went out (sendall is the one that loops)
+    w.add(Contract("model:Sock.send", {"self": REF("Sock"), "data": BYTES}, modifies=lambda a, h: [("Sock", a.self, "written"), ("Sock", a.self, "nwrites")],
+                   cases=[Case("some", restype=INT, post=lambda a, h, h2, r: [r >= 0, r <= z3.Length(a.data), z3.Implies(z3.Length(a.data) > 0, r >= 1),
+                                                                             h2("Sock", a.self, "written") == z3.Concat(h("Sock", a.self, "written"), z3.SubSeq(a.data, 0, r)),
+                                                                             h2("Sock", a.self, "nwrites") == h("Sock", a.self, "nwrites") + 1]),
+                          Case("oserror", "raise", "OSError")], trusted=True, note="socket.send: a non-empty prefix is sent"))
     w.add(Contract("model:RawOut.flush", {"self": REF("RawOut")},
                    modifies=lambda a, h: [("RawOut", a.self, "nflush")],
                    cases=[Case("ok", post=lambda a, h, h2, r: [h2("RawOut", a.self, "nflush") == h("RawOut", a.self, "nflush") + 1]),
